@@ -169,7 +169,8 @@ class Lib:
             return FnRef(fd=fd)
         s = '::'.join(segs)
         if s in ('ToString::to_string', 'String::as_str', 'Result::ok', 'Option::Some', 'Some', 'Ok', 'Err', 'String::from',
-                 'PathBuf::from', 'Into::into', 'Clone::clone', 'ToOwned::to_owned', 'HashSet::new', 'Vec::new', 'String::to_string'):
+                 'PathBuf::from', 'Into::into', 'Clone::clone', 'ToOwned::to_owned', 'HashSet::new', 'Vec::new', 'String::to_string',
+                 'BTreeSet::new', 'BTreeMap::new', 'HashMap::new', 'String::new'):
             return FnRef(name=s)
         if s == 'SystemTime::UNIX_EPOCH':
             return Opaque('SystemTime', t=0)
@@ -839,6 +840,10 @@ class Lib:
         if last2 == 'Error::new':
             e0 = I.deref(args[0])
             return Opaque('Error', msg=self._errmsg(e0), site=node['line'], file=node['_file'], source=e0)
+        if last2 == 'iter::once':
+            return self.mk_iter([(True, args[0])])
+        if last2 == 'iter::empty':
+            return self.mk_iter([])
         if last2 == 'itertools::sorted':
             its = self._forked(self.iterate(args[0], node))
             return self.mk_iter(sorted(its, key=lambda gx: self._sort_key(I.deref(gx[1]), node)))
@@ -1036,6 +1041,11 @@ class Lib:
             return err(Opaque('Error', msg=self.to_display(msg) if not isinstance(msg, str) else msg, site=node['line'], file=node['_file']))
         if method == 'insert':
             I.store_at(ref, some(args[0]))
+            return Ref(ref.addr, ref.path + (('p', 'Some', 0),))
+        if method in ('get_or_insert_with', 'get_or_insert'):
+            if not is_some:
+                nv = I.call_value(args[0], [], node) if method == 'get_or_insert_with' else args[0]
+                I.store_at(ref, some(nv))
             return Ref(ref.addr, ref.path + (('p', 'Some', 0),))
         if method == 'replace':
             I.store_at(ref, some(args[0]))
